@@ -13,7 +13,7 @@ import functools
 import json
 
 from project import project, comp_desc, conf_wire, report_digests, df_canon
-from decwire import wire
+from decwire import wire, cell
 
 EDIT_OPS = ["add_source", "add_comp", "change_comp", "del_comp", "set_sys_phases", "set_comp_phases"]
 ANALYSES = ["solve", "rail_rep", "params", "limits", "phases", "tree", "save", "plot_interp",
@@ -70,7 +70,7 @@ def edit_args(op, a, kw):
             ok = isinstance(ph, dict) and all(isinstance(k, str) for k in ph)
             if not ok:
                 return {"phases": []}, False
-            return {"phases": [{"name": k, "dur": wire(v)} for k, v in ph.items()]}, ok
+            return {"phases": [{"name": k, "dur": cell(v)} for k, v in ph.items()]}, ok
         if op == "set_comp_phases":
             ref = a[0] if a else kw["name"]
             conf = a[1] if len(a) > 1 else kw["phase_conf"]
